@@ -53,6 +53,9 @@ def run_case(rng, res, idx, tier):
         return
     for stage in range(pp):
         kinds = neox.kinds_of(spec, stage)
+        if not kinds:
+            res.count('stages_without_kfac_layers')
+            continue   # nothing to compare on a stage without K-FAC layers (it still took part in every collective above)
         ranks = [r for r in range(W) if topo.get_coord(r).pipe == stage]
         offset = sum(spec['layers'][:stage])
         for st in range(nsteps):
